@@ -51,15 +51,20 @@ def try_edges(body, call):
         # find a call in the straight-line successor chain that consumes cur.dest
         bb = cur.target
         seen = 0
-        while seen < 6:
+        locs = flow.derived(body, {cur.dest["l"]}, calls=())
+        while seen < 16:
             seen += 1
             t = body.term(bb)
             if t["k"] == "call":
                 c2 = [c for c in body.calls() if c.bb == bb][0]
-                locs = flow.derived(body, {cur.dest["l"]}, calls=())
                 if any(op_local(a) in locs for a in c2.args):
                     nxt = c2
-                break
+                    break
+                # an unrelated call evaluated in between (e.g. the argument of ok_or(..)): keep walking
+                if t.get("target") is None:
+                    break
+                bb = t["target"]
+                continue
             if t["k"] in ("goto", "drop"):
                 bb = t["target"]
                 continue
